@@ -1,6 +1,7 @@
 import AaVerif.Filter
 import AaVerif.FilterLemmas
 import AaVerif.FilterPara
+import AaVerif.FilterMarker
 import AaVerif.Generated.Dists
 /-!
 # C03 — only/exclude directives keep exactly the rules meant for the build target
@@ -175,5 +176,13 @@ example : model ⟨"arch".toList, "pacman".toList, "abi4".toList, "apparmor4.1".
     some "p {\n\n  /b r,\n\n  /c r,\n}\n".toList := by
   rw [C03_refines_partial _ _ (by decide +kernel)]
   decide +kernel
+
+/-- **The marker never survives, at text level**: for every text in the layouts of `wfText` in which no second marker hides in
+the code in front of a directive, the output of `directive.Run` (its model) is the join of lines none of which holds `#aa:`. -/
+theorem C03_marker_gone_text (tg : Target) (t : List Char) (h : wfText t = true) (hh : noHiddenKw (splitNl t) = true) :
+    ∃ out : List (List Char), model tg t = some (joinNl out) ∧ ∀ l ∈ out, ¬ kw <:+: l :=
+  model_no_marker tg t h hh
+
+example : noHiddenKw (splitNl mixedSample) = true := by decide +kernel
 
 end C03
